@@ -4,9 +4,9 @@ CHECKS["C18"] = dict(
          "plus explicit choice points inside the model callback; every schedule with <= k deviations from the default schedule runs to completion (k = 2 quick, 3 thorough) for 13 scenarios "
          "(workers 1-3, budgets below/above the pool and below the number of workers, batches, tolerance reached early, threaded loadNeededValues); oracle on every execution: termination, "
          "exactly-once, exclusive thread ids, budget, values at their coordinates, nodal surrogate; distinct = distinct (outcome, assignment trace) classes. "
-         "Model latencies: 4 further scenarios (2-D local polynomial grid, f = 1 + max(0,-x_0), 2-4 workers) run in virtual time: a model call on point x is busy for L(x) ticks and the clock only advances when no "
+         "Model latencies: 7 further scenarios (2-D local polynomial grid with f = 1 + max(0,-x_0), 2-4 workers; wavelet grids in 1-D and 2-D, 4-6 workers) run in virtual time: a model call on point x is busy for L(x) ticks and the clock only advances when no "
          "thread can run; every latency assignment of the families 'non-initial points take u', 'initial point p takes t_p', 'initial points p, q take 1 and 2 ticks' (p, q over all 13 initial points, "
-         "t_p in {1,2,3}, u in {0,1,2,4}; 628 assignments per scenario) is executed under the default schedule (quick: 2 scenarios; thorough: 4 scenarios) and, in the thorough tier, with every single deviation on top for the first 2 scenarios. "
+         "t_p in {1,2,3}, u in {0,1,2,4}), 'the k coarsest initial points take t_k ticks' (k = 1..all, t_k in {1,2}); 680 assignments per local polynomial scenario, 3 wavelet scenarios (1-D and 2-D: fine samples are parked while the coarse ones are slow) with 44-108 assignments each is executed under the default schedule (quick: 2 scenarios; thorough: 4 scenarios) and, in the thorough tier, with every single deviation on top for the first 2 scenarios. "
          "Protocol model: models/surrogate_protocol.pml (Promela; one model step = one scheduling block of the scheduler, labelled thread:operation) is verified by Spin over ALL interleavings "
          "(no deviation bound; deadlock = invalid end state, budget, exactly-once, nobody left running) for 8 (quick) / 13 (thorough) configurations of workers x budget x pool up to 4 workers, and is bound to the code "
          "in both directions: every complete trace of the model is replayed on the real code in follow mode and must produce exactly the model's operations (all 391 + 190 traces of the 2-worker budget-1 "
